@@ -142,6 +142,21 @@ theorem observers_depend_on_read (h h' : Heap) (i j : Inst) (hr : read h i = rea
 
 /-! ## copies: clone / deepcopy -/
 
+/-- constructing an instance (`cls(...)`, `from_bits`): it holds the given value, all its leaf objects are
+new and pairwise distinct — hence disjoint from every instance that existed — and nothing that existed
+changes. (This and `clone_spec` establish the distinctness / disjointness hypotheses of the theorems below.) -/
+theorem build_fresh (h : Heap) (v : Val) :
+    read (build h v).1 (build h v).2 = v ∧ (cells (build h v).2).Nodup ∧
+    InHeap (build h v).1 (build h v).2 ∧
+    (∀ j, InHeap h j → Disj (build h v).2 j ∧ InHeap (build h v).1 j ∧ read (build h v).1 j = read h j) := by
+  obtain ⟨f, r⟩ := build_spec h v
+  refine ⟨r, f.nodup, fun c hc => (f.range c hc).2, ?_⟩
+  intro j hj
+  refine ⟨?_, fun c hc => Nat.lt_of_lt_of_le (hj c hc) f.size_le, ?_⟩
+  · intro c hc hcj
+    have := (f.range c hc).1; have := hj c hcj; omega
+  · exact read_congr _ _ _ (fun c hc => by rw [f.old c (hj c hc)])
+
 /-- `clone()` / `__deepcopy__`: the copy has the same visible value, all its leaf objects are new
 (ids not in use before, pairwise distinct, without `_next`), nothing that existed is modified -/
 theorem clone_spec (h : Heap) (i : Inst) (hin : InHeap h i) :
@@ -177,20 +192,6 @@ theorem clone_independent (h : Heap) (i : Inst) (hin : InHeap h i) :
 
 /-! ## `@=` -/
 
-theorem imatmulSame_spec (h : Heap) (dst src : Inst) (hs : SameShape h dst src)
-    (nd : (cells dst).Nodup) (dj : Disj dst src) :
-    ∃ h', imatmulSame h dst src = .ok h' ∧ read h' dst = read h src ∧ read h' src = read h src ∧
-      h'.size = h.size ∧ (∀ c, c ∉ cells dst → h'.cell c = h.cell c) ∧
-      (∀ c, (h'.cell c).next = (h.cell c).next) := by
-  obtain ⟨h', e, sz, fr, _, m⟩ := zipWithM_spec leafAssign gAssign
-    (fun h d s hn => leafAssign_ok h d s hn) (fun _ _ => rfl) dst src h hs nd dj
-  refine ⟨h', e, read_of_matched_assign h h' dst src hs m, ?_, sz, fr, ?_⟩
-  · exact read_congr _ _ _ (fun c hc => by rw [fr c (fun hd => dj c hd hc)])
-  · intro c
-    by_cases hc : c ∈ cells dst
-    · exact matched_forall gAssign (fun r' r => r'.next = r.next) (fun _ _ => rfl) h h' dst src m c hc
-    · rw [fr c hc]
-
 /-- `dst @= src`, same class: the new value is visible at once, `src` is untouched, nothing else
 changes, and no leaf object becomes shared: a later write to either side is invisible through the other -/
 theorem assign_no_alias (T : Ty) (h : Heap) (dst src : Inst)
@@ -204,13 +205,6 @@ theorem assign_no_alias (T : Ty) (h : Heap) (dst src : Inst)
   refine ⟨h', by simp [imatmul, e], r1, r2, fr, nx, ?_, ?_⟩
   · intro c hc r; rw [write_independent _ _ _ dj c hc r, r2]
   · intro c hc r; rw [write_independent _ _ _ dj.symm c hc r, r1]
-
-theorem convert_ok (T U : Ty) (h : Heap) (src : Inst) (hs : HasTy (read h src) U) (hw : U.width = T.width)
-    (h1 : 1 ≤ T.width) (h2 : T.width < 1024) :
-    convert T h src = .ok (build h (fromBits T (toBits (read h src)).2)) := by
-  have e1 := (toBitsPy_eq hs).1 ⟨by omega, by omega⟩
-  have e2 := (fromBitsPy_eq T U.width (toBits (read h src)).2).1 hw
-  simp [convert, e1, e2]
 
 /-- `dst @= src` with `src` of another class (or a `Bits`) of the same width: `dst` receives
 `from_bits(src.to_bits())` — same packed value — `src` and everything else is untouched, and no leaf
@@ -251,18 +245,6 @@ theorem assign_cross_width_mismatch (T U : Ty) (h : Heap) (dst src : Inst) (hs :
   simp [imatmul, ilshift, convert, e1, e2]
 
 /-! ## `<<=` and `_flip` -/
-
-theorem ilshiftSame_spec (h : Heap) (dst src : Inst) (hs : SameShape h dst src)
-    (nd : (cells dst).Nodup) (dj : Disj dst src) :
-    ∃ h', ilshiftSame h dst src = .ok h' ∧ (∀ c, (h'.cell c).cur = (h.cell c).cur) ∧
-      readNext h' dst = some (read h src) ∧ h'.size = h.size ∧ (∀ c, c ∉ cells dst → h'.cell c = h.cell c) := by
-  obtain ⟨h', e, sz, fr, _, m⟩ := zipWithM_spec leafNb gNb
-    (fun h d s hn => leafNb_ok h d s hn) (fun _ _ => rfl) dst src h hs nd dj
-  refine ⟨h', e, ?_, readNext_of_matched_nb h h' dst src hs m, sz, fr⟩
-  intro c
-  by_cases hc : c ∈ cells dst
-  · exact matched_forall gNb (fun r' r => r'.cur = r.cur) (fun _ _ => rfl) h h' dst src m c hc
-  · rw [fr c hc]
 
 /-- `dst <<= src`, same class: no visible value of any object changes (`dst` included); the value of
 `src` at this moment is what is pending in `dst` -/
